@@ -302,6 +302,21 @@ func checkServed(p polSpec, capS int, r *ansRec, c clientT, sent []optT, qid int
 	if !r.wellformed || r.eff == 0 {
 		return ""
 	}
+	if r.viaRefresh {
+		// answers obtained by a background refresh get signatures of their own
+		// (candidate finding: the refresh of a shared entry can carry a client's subnet)
+		if capS > 0 && servedTTL > capS {
+			return fail("refresh/scoped-answer-served-ttl-above-cap", "ttl=%d cap=%d", servedTTL, capS)
+		}
+		if naiveAllows(p, c, true) {
+			for _, o := range sent {
+				if fam, addr, ok := usableECS(o); ok && fam == r.fam && int(o.mask) >= r.eff && bitsEqual(addr, r.addr, r.eff) {
+					return ""
+				}
+			}
+		}
+		return fail("refresh/scoped-answer-served-outside-scope", "scope=%x/%d", r.addr, r.eff)
+	}
 	if capS > 0 && servedTTL > capS {
 		return fail("scoped/served-ttl-above-cap", "ttl=%d cap=%d", servedTTL, capS)
 	}
